@@ -18,6 +18,7 @@
 #include <fcntl.h>
 #include <signal.h>
 #include <sys/types.h>
+#include <setjmp.h>
 
 #ifdef __cplusplus
 #define VF_UNUSED __attribute__((unused))
@@ -76,6 +77,8 @@ struct vf_ctx {
 	size_t live_bytes;
 	int id;
 	int cur_src;		/* for flavours without a FILE identity (C++) */
+	int use_jmp;		/* several instances in one process: leave the instance, not the process */
+	jmp_buf jmp;
 	uint32_t flags;		/* 1: log delivered count; 2: sources are real (temporary) files */
 	uint32_t bufsize;	/* size for explicitly created buffers, 0 = YY_BUF_SIZE */
 };
@@ -185,8 +188,11 @@ static void vf_finish(struct vf_ctx *c, int code)
 /* checkpoint events stop the run when the budget is used up (same rule as the model) */
 static void vf_checkpoint(struct vf_ctx *c)
 {
-	if (c->nev >= c->budget)
+	if (c->nev >= c->budget) {
+		if (c->use_jmp)
+			longjmp(c->jmp, 1);
 		vf_finish(c, 0);
+	}
 }
 
 static void vf_endl(struct vf_ctx *c)
